@@ -897,7 +897,17 @@ impl CKBProtocolHandler for Synchronizer {
             Ok(msg) => {
                 let item = msg.to_enum();
                 if let packed::SyncMessageUnionReader::SendBlock(ref reader) = item {
-                    if reader.has_extra_fields() || reader.block().count_extra_fields() > 1 {
+                    // the only extra field a block may carry is the extension, which must be a
+                    // well-formed `Bytes`: the compatible decoding does not look into extra fields
+                    let malformed_extension = reader
+                        .block()
+                        .extra_field(0)
+                        .map(|data| packed::BytesReader::verify(data, false).is_err())
+                        .unwrap_or(false);
+                    if reader.has_extra_fields()
+                        || reader.block().count_extra_fields() > 1
+                        || malformed_extension
+                    {
                         info!(
                             "A malformed message from peer {}: \
                              excessive fields detected in SendBlock",
